@@ -101,6 +101,12 @@ func LkProtoFor(h string) datamodel.NodePrototype {
 
 // LkBuildHolder builds v in the named holder: a typed holder assembles the value at the type level.
 func LkBuildHolder(h string, v *Val) (datamodel.Node, error) {
+	if h == "big" { // a large bytes node given by its name (lib/link_big.go)
+		if v.Kind != KBytes {
+			return nil, fmt.Errorf("holder big wants bytes")
+		}
+		return basicnode.NewBytes([]byte(LkRegister(v.S))), nil
+	}
 	if !LkIsTyped(h) {
 		return BuildHolder(h, v)
 	}
